@@ -76,6 +76,30 @@ CLAIMS = {
          "struct-tag table extraction and sibling agreement (encoder/decoder), type-resolved disallowed-call rule, value-source rules for ids, producer normalisation guards", "§3 C19"),
 }
 
+# later additions (blind rounds 4-6, mutation triage); appended to the claim text
+EXTRA = {
+ 'C01': "Also: error discipline on the transports' Write paths and Connection.write/Call/Notify (every fallible step's error is tested and returned); the write-error guard of C04 (imported); stream bookkeeping of the streamable client (shared with C09).",
+ 'C02': "Also: behind req.IsCall() every path of processResult writes a response built by NewResponse(req.ID, ...) under a non-cancellable context, also for an unencodable result (D17); every unmarshalParams refuses nil params; batch slot reservation and malformed-batch refusal in ioConn.Read/readBatch.",
+ 'C03': "Also: batch wire order incl. rest-queued-before-head; replay-cursor rule of C08 (imported).",
+ 'C04': "Also: the connection is failed only while the caller's context is alive (all c.fail sites of the streamable client; D14-D16); cancel notices carry _meta (D12); HTTP Do with no mutex held; listen context detached from Connect's ctx.",
+ 'C05': "Also: lock pairing over all Lock sites; close-once idiom with close on every path; Close/wait/shuttingDown table; imports of cancelCall-retires and stopTimer rules.",
+ 'C06': "Also: decodeMetaValue null handling; imports of the mirror gate (C12), case-sensitive decode (C19) and per-session versions (C07).",
+ 'C07': "Also: error discipline of the nine Connect functions (two reasoned exemptions = the fall-back to initialize); the transport filter is evaluated inside the session critical section; checkResponse has no side effects.",
+ 'C08': "Also: append-gate exactness, replay ids exist and replay is complete; imports of After:copy-under-lock (C20), writeEvent framing (C19), connectSSE budget (C09).",
+ 'C09': "Also: one attempt counted per failed reconnect; Event.Empty tests every field; handleSSE returns decided under 'ctx alive'; behind a failed read/decode of a JSON body nothing is handed to the session.",
+ 'C10': "Also: idContextKey set for every request; sibling transport literals agree; a resumed stream is bound to the exchange only on the path that hands it to the caller.",
+ 'C11': "Also: stopTimer/first-POST rules; every return of Close after conn.Close and onClose on every path; client Close sends DELETE unless the session is missing; no silent 200 in the session-serving HTTP functions (imported from C12).",
+ 'C12': "Also: no silent 200 (every return of the 16 functions holding a ResponseWriter lies behind a use of the writer); metadata injected before every client send; lookupTool filters cached definitions by name only; body-limit default.",
+ 'C13': "Also: ticker not re-armed in the loop; keep-alive cancelled before conn.Close; failures wrap ErrRejected; WireError.Is compares codes only; transient HTTP status table.",
+ 'C14': "Also: challenge value/pin, options pass-through or complete copy, verifier value not modified; no silent 200 in the middleware.",
+ 'C15': "Also: IssuersEqual exactness; error discipline over all flow functions (two reasoned exemptions).",
+ 'C16': "Also: schema/resolved pairing and caching order; a multi-round-trip retry re-sends the caller's own request; lookupTool rule (imported from C12).",
+ 'C17': "Also: decodeCursor returns errors only behind a failed decoding step; cache generation rule (imported from C18).",
+ 'C18': "Also: re-arm is unconditional and the slot is cleared before the recipient snapshot; remove flag monotone; listen clean-up owns only its ids (D13); cache invalidation moves the generation and drops values on every path.",
+ 'C19': "Also: codec conversions complete (embedded fields counted); null elements in decoders (D11); wrap order / peer error wrapped with %w; one decoder per connection; the nil-normalised copy is the value returned.",
+ 'C20': "Also: create-only-when-missing; imports of client DELETE (C11) and handleSSE (C09) rules.",
+}
+
 REASONS = {}
 
 checks, na = [], []
@@ -83,6 +107,9 @@ for p in props:
     i = p['id']
     if i in CLAIMS:
         text, tech, ref = CLAIMS[i]
+        if i in EXTRA:
+            j = text.rfind('Not decided:')
+            text = (text[:j] + EXTRA[i] + ' ' + text[j:]) if j >= 0 else text + ' ' + EXTRA[i]
         checks.append({
             "property_id": i,
             "quick_cmd": "./check.sh %s quick" % i,
